@@ -1381,7 +1381,11 @@ def run_process(case) -> CaseResult:
             await asyncio.Event().wait()
 
         finish(case['end'], stdout, chan)
+        ended.append(True)
 
+    # whether the command got as far as reporting how it ended (a drain()
+    # blocked by the client's window keeps it from getting there)
+    ended: List[bool] = []
     pair = make_pair(case, body, case['sapi'], encoding=enc)
     h = pair.h
 
@@ -1595,6 +1599,12 @@ def run_process(case) -> CaseResult:
                             (check, wexit[0], kind), 'check-flag')
 
         got = (obj.exit_status, obj.exit_signal, obj.returncode)
+
+        if conn_ended and got == (None, None, None) and not ended:
+            # the connection ended while the command was still writing
+            # (blocked on the window): it never said how it ended
+            labels.add('conn-end:command-still-writing')
+            wexit = got
 
         if got != wexit:
             raise Violation('exit-info', '%s reported (status, signal, '
